@@ -298,6 +298,50 @@ def finish(res, claim, t_start, extra_cov=None):
                     o["replayed"] = bool(reproduced)
                     o["replay_log"] = "\n".join(l for l in log.split("\n----\n")[0].splitlines() if name in l or "REPLAY-" in l)[:3000] + "\n...\n" + log[-1200:]
                     o["replay_test_source"] = srcs[o["id"]]
+    # ---- K engine (vlib/kani.py): Kani twins of the integer / byte-level Verus units of this run
+    try:
+        from . import kani as kn
+        v_units = sorted({o.get("unit") for o in res.obligations if o.get("backend") in (None, "verus") and o.get("unit")})
+        twin_units = kn.twins_for_units(v_units)
+        failed_units = {o.get("unit") for o in res.obligations if o["status"] == "failed" and o.get("backend") in (None, "verus")
+                        and (res.pid, o["id"]) not in known_ids}
+        want = twin_units if res.tier == "thorough" else [u for u in twin_units if u in failed_units]
+        if want and os.environ.get("VERIF_NO_KANI") != "1" and not (os.environ.get("VERIF_NO_REPLAY") == "1" and res.tier != "thorough"):
+            tr = kn.run_twins(want)
+            srcs = {u: r["replay_src"] for u, r in tr.items() if r.get("status") == "failed" and r.get("replay_src")}
+            rlog, rres = ("", {})
+            if srcs:
+                try:
+                    rlog, rres = kn.replay(srcs)
+                except Exception as e:
+                    rlog, rres = f"replay error: {e}", {}
+            for u, r in tr.items():
+                t = kn.TWINS[u]
+                res.solver_time.setdefault("kani_s", {})[u] = r.get("seconds")
+                if res.tier == "thorough":
+                    st = {"proved": "discharged", "failed": "failed"}.get(r["status"])
+                    if st is None:
+                        res.undecided.append(f"Kani twin of {u}: {r.get('detail', '')[:300]}")
+                    else:
+                        res.add_ob(id=f"{u}.kani_twin", unit=u, kind="kani-harness", backend="kani", status=st, detail=r.get("detail"),
+                                   text=f"loop-free #[kani::proof] {t['harness']}: the contract of {u} as executable assertions on kani::any() inputs "
+                                        f"(complete: {t['complete_because']})")
+                        if st == "failed":
+                            ob = res.obligations[-1]
+                            ob["cex"], ob["replayed"], ob["replay_log"], ob["replay_test_source"] = r.get("cex"), rres.get(u), rlog, r.get("replay_src")
+                if r["status"] == "failed" and r.get("cex"):
+                    # the concrete failing input belongs to the failed Verus obligations of the same unit
+                    for o in res.obligations:
+                        if o.get("unit") == u and o["status"] == "failed" and o.get("backend") in (None, "verus") and not o.get("cex"):
+                            o["cex"] = {"kani_twin": t["harness"], "inputs": r["cex"], "failed_check": r.get("detail")}
+                            o["replayed"] = bool(rres.get(u))
+                            o["replay_log"] = rlog
+                            o["replay_test_source"] = r.get("replay_src")
+            if tr:
+                res.cmds.append("cargo kani --harness <twin> -Z concrete-playback --concrete-playback=print (scratch copy of /repo + twin module)")
+                res.trusted.append("Kani 0.68 / CBMC 6.11 (twins: loop-free harnesses over kani::any(); the twin's executable statement of the contract, /verif/vlib/kani.py)")
+    except Exception as e:      # the K engine must never turn into a verdict about the code
+        res.notes.append(f"K engine error (ignored): {type(e).__name__}: {e}")
     for o in res.obligations:
         if o["status"] != "failed":
             continue
